@@ -267,7 +267,25 @@ def write_evidence(cid, chk, tier, seed, total, wall, nviol, known_hit,
     return path
 
 
+def setup():
+    """MANIFEST.setup_cmd: nothing needs building; verify that the tree under
+    test and the third-party packages the checks use can be imported."""
+    import pywbem
+    import pywbem_mock
+    import lxml.etree
+    import requests
+    import urllib3
+    print('setup ok: pywbem %s from %s; pywbem_mock from %s; lxml %s; '
+          'requests %s; urllib3 %s' % (
+              pywbem.__version__, os.path.dirname(pywbem.__file__),
+              os.path.dirname(pywbem_mock.__file__), lxml.etree.__version__,
+              requests.__version__, urllib3.__version__))
+    return 0
+
+
 def main(argv=None):
+    if (argv if argv is not None else sys.argv[1:])[:1] == ['--setup']:
+        return setup()
     ap = argparse.ArgumentParser(prog='check')
     ap.add_argument('cid')
     ap.add_argument('--tier', default=os.environ.get('VERIF_TIER', 'quick'),
